@@ -6,4 +6,7 @@ import Helm.Props.C09
 #print axioms Helm.Props.C09.at_most_one_operation_in_flight
 #print axioms Helm.Props.C09.two_operations_all_interleavings
 #print axioms Helm.Props.C09.three_operations_two_preemptions
+#print axioms Helm.Props.C09.pruning_spares_concurrent_records
+#print axioms Helm.Props.C09.pruning_bound_inert_when_alone
+#print axioms Helm.Props.C09.pruning_bound_in_source
 #print axioms Helm.Props.C09.pending_statuses_are_the_three
